@@ -51,6 +51,15 @@ def strip_ns(s):
     return s
 
 
+def tkey(s):
+    """lookup key of a type: namespaces stripped, spacing normalised, common typedef names inside template
+    argument lists replaced by their canonical spelling"""
+    s = strip_ns(norm_type(s))
+    s = re.sub(r"\bstd::size_t\b|\bsize_t\b", "unsigned long", s)
+    s = re.sub(r"\bPy_ssize_t\b|\bssize_t\b|\bptrdiff_t\b", "long", s)
+    return s
+
+
 def norm_type(s):
     s = s.strip()
     s = re.sub(r"\s+", " ", s)
@@ -445,7 +454,9 @@ class Emitter:
             return b, p + ptr, a + arr
         if qt in BUILTIN:
             return BUILTIN[qt], ptr, arr
-        n = strip_ns(norm_type(qt))
+        n = tkey(qt)
+        if n not in self.opaque and n not in self.ast.records and strip_ns(norm_type(qt)) in self.ast.records:
+            n = strip_ns(norm_type(qt))
         if n in self.opaque:
             return self.opaque[n], ptr, arr
         if n in self.ast.enumtypes or re.search(r"::\(unnamed enum", n):
@@ -463,7 +474,7 @@ class Emitter:
         return "%s %s%s%s" % (b, p, name, a)
 
     def is_record(self, qt):
-        n = strip_ns(norm_type(self.strip_cv(self.resolve_typedef(self.strip_cv(self.unref(qt))))))
+        n = tkey(self.strip_cv(self.resolve_typedef(self.strip_cv(self.unref(qt)))))
         return (n in self.ast.records and n not in self.opaque) or n in self.opaque
 
     def need_struct(self, n):
@@ -508,7 +519,7 @@ class Emitter:
         return cname
 
     def allow_virtual(self, n):
-        return "Task" in n
+        return "Task" in n or "Vectorized" in n
 
     def nontrivial_dtor(self, c, n):
         # a destructor with an empty body is fine
@@ -794,7 +805,7 @@ class FuncEmitter:
                     out.append("memset(&(%s[%d]), 0, sizeof(%s[%d]));" % (target, i, target, i))
             return " ".join(out)
         if self.em.is_record(qt):
-            rec = self.ast.records[strip_ns(norm_type(self.em.strip_cv(self.em.resolve_typedef(qt))))]
+            rec = self.ast.records[tkey(self.em.strip_cv(self.em.resolve_typedef(qt)))]
             fields = [c for c in rec.get("inner", []) or [] if c.get("kind") == "FieldDecl"]
             for f, it in zip(fields, items):
                 ft = f["type"].get("desugaredQualType") or f["type"]["qualType"]
@@ -1369,7 +1380,7 @@ class FuncEmitter:
 
     def ctor_of(self, e):
         ct = e.get("ctorType", {}).get("qualType")
-        rec_t = strip_ns(norm_type(self.em.strip_cv(self.em.resolve_typedef(self.em.strip_cv(re.sub(r"(\[\d+\])+$", "", e["type"].get("desugaredQualType") or e["type"]["qualType"]))))))
+        rec_t = tkey((self.em.strip_cv(self.em.resolve_typedef(self.em.strip_cv(re.sub(r"(\[\d+\])+$", "", e["type"].get("desugaredQualType") or e["type"]["qualType"]))))))
         rec = self.ast.records.get(rec_t)
         if rec is None:
             return None
@@ -1409,7 +1420,7 @@ class FuncEmitter:
                 return "(*%s = %s)" % (target_ptr, self.rv(e))
         args = [a for a in e.get("inner", []) or []]
         qt = e["type"].get("desugaredQualType") or e["type"]["qualType"]
-        if strip_ns(norm_type(self.em.strip_cv(qt))) in self.em.opaque:
+        if tkey(self.em.strip_cv(qt)) in self.em.opaque:
             # library type modelled by a plain C struct: default construction zeroes, copy construction copies
             if not args:
                 return "memset(%s, 0, sizeof(*%s))" % (target_ptr, target_ptr)
